@@ -224,4 +224,165 @@ def refRun (tid tries K : Nat) (g : Geom) (S : Nat) (image : List UInt8) :
       (loads ++ (refRun tid tries K g S image k (i + 1) (ctr + 1) s).1,
         (refRun tid tries K g S image k (i + 1) (ctr + 1) s).2)
 
+/-! ### several loader objects, several connections, copters with several targets -/
+
+/-- one target of a copter: what its bootloader reports, and its memory -/
+structure CTarget where
+  tid : Nat
+  geom : Geom
+  mem : Target
+
+/-- A Crazyflie in bootloader mode.  `infoScript`: what happens to the successive get-info transmissions
+(exhausted: answered at once); the copter's own answer to get-info for a target is `infoPkt`. -/
+structure Copter where
+  targets : List CTarget
+  proto : Option Nat
+  infoScript : List Outcome
+  lateQ : List Pkt
+
+/-- the get-info reply of the protocol: `(tid, 0x10, page_size, buffer_pages, flash_pages, start_page)` little-endian,
+12 bytes cpu id, optionally the protocol version -/
+def infoPkt (tid : Nat) (g : Geom) (proto : Option Nat) : Pkt :=
+  ⟨0xFF, [UInt8.ofNat tid, 0x10] ++ leBytes 2 g.pageSize ++ leBytes 2 g.bufferPages ++ leBytes 2 g.flashPages ++
+    leBytes 2 g.startPage ++ (List.range 12).map UInt8.ofNat ++ (proto.map UInt8.ofNat).toList⟩
+
+def Copter.find (c : Copter) (tid : Nat) : Option CTarget := c.targets.find? (·.tid = tid)
+
+def Copter.setMem (c : Copter) (tid : Nat) (m : Target) : Copter :=
+  { c with targets := c.targets.map fun t => if t.tid = tid then { t with mem := m } else t }
+
+/-- the geometry the copter reports for `tid` -/
+def Copter.geomOf (c : Copter) (tid : Nat) : Option Geom := (c.find tid).map (·.geom)
+
+def copterPeer : Peer Copter where
+  onSend c p :=
+    if p.hdr ≠ 0xFF then (c, []) else
+    match p.data with
+    | t :: cmd :: _ =>
+      match c.find t.toNat with
+      | none => (c, [])
+      | some ct =>
+        if cmd.toNat = 0x10 then
+          match c.infoScript with
+          | [] => (c, [infoPkt ct.tid ct.geom c.proto])
+          | o :: rest =>
+            match o.reply with
+            | none => ({ c with infoScript := rest }, [])
+            | some r =>
+              if o.late then ({ c with infoScript := rest, lateQ := c.lateQ ++ [r] }, [])
+              else ({ c with infoScript := rest }, [r])
+        else
+          match decode ct.tid p with
+          | some (.load page addr bytes) => (c.setMem ct.tid (ct.mem.load page addr bytes), [])
+          | some (.write bp fp n) => (c.setMem ct.tid (ct.mem.writeFlash bp fp n), [wfReply ct.tid 1 0])
+          | none => (c, [])
+    | _ => (c, [])
+  onWaitDone c := ({ c with lateQ := [] }, c.lateQ)
+
+/-- One process: copters that can be connected to, loader objects (each with the index of the copter its current
+link goes to), and - ghost - for every cache entry of every loader the copter it was read from. -/
+structure LoaderSt where
+  ld : Loader Copter
+  conn : Option Nat
+  readFrom : List (Nat × Nat)          -- ghost: target id ↦ copter index the cached entry was read from
+
+structure World where
+  copters : List Copter
+  loaders : List LoaderSt
+
+inductive HOp
+  | new                                   -- a new Cloader object (appended)
+  | openLink (k c : Nat)                  -- loader k: open_bootloader_uri to copter c (closes its previous link)
+  | closeLink (k : Nat)                   -- Bootloader.close(): link closed, `link = None`
+  | update (k tid : Nat)                  -- _update_info(tid)
+  | request (k tid : Nat)                 -- request_info_update(tid)
+  | check (k : Nat)                       -- check_link_and_get_info()  (target 0xFF)
+  | flash (k key : Nat) (image : List UInt8) (ov : Option Int)
+  deriving Repr
+
+inductive HRes
+  | unit | bool (b : Bool) | geom (g : Geom) | res (r : Res) | err (e : PyErr) | stepBound | badOp
+  deriving Repr, DecidableEq
+
+/-- hand the copter state held by loader `k`'s link back to the world (the radio is exclusive: one link per copter) -/
+def World.release (w : World) (k : Nat) : World :=
+  match w.loaders[k]? with
+  | some ls =>
+    match ls.ld.link, ls.conn with
+    | some L, some c => { w with copters := w.copters.set c L.st }
+    | _, _ => w
+  | none => w
+
+def lookupN (l : List (Nat × Nat)) (k : Nat) : Option Nat :=
+  match l with
+  | [] => none
+  | (a, b) :: r => if a = k then some b else lookupN r k
+
+/-- record in the ghost map the entries that were (re)read by an operation -/
+def noteRead (ls : LoaderSt) (ld' : Loader Copter) : LoaderSt :=
+  { ld := ld', conn := ls.conn,
+    readFrom := if ld'.targets.length = ls.ld.targets.length then ls.readFrom
+      else match ld'.targets.head?, ls.conn with
+        | some (tid, _), some c => (tid, c) :: ls.readFrom
+        | _, _ => ls.readFrom }
+
+def World.step (fuel : Nat) (w : World) : HOp → World × HRes
+  | .new => ({ w with loaders := w.loaders ++ [⟨Loader.new, none, []⟩] }, .unit)
+  | .openLink k c =>
+    match w.loaders[k]?, w.copters[c]? with
+    | some _, some _ =>
+      -- the copter must not be held by another loader's link
+      if (w.loaders.zipIdx.any fun (x : LoaderSt × Nat) => x.2 ≠ k ∧ x.1.conn = some c ∧ x.1.ld.link.isSome) then (w, .badOp)
+      else
+        let w1 := w.release k
+        match w1.loaders[k]?, w1.copters[c]? with
+        | some ls, some cop =>
+          let L0 : Link Copter := { st := { cop with lateQ := [] }, inbox := [], sent := [] }
+          let ls' : LoaderSt := { ls with ld := ls.ld.openLink L0, conn := some c }
+          ({ w1 with loaders := w1.loaders.set k ls' }, .unit)
+        | _, _ => (w, .badOp)
+    | _, _ => (w, .badOp)
+  | .closeLink k =>
+    match w.loaders[k]? with
+    | some ls =>
+      let w1 := w.release k
+      let ls' : LoaderSt := { ls with ld := { ls.ld with link := none }, conn := none }
+      ({ w1 with loaders := w1.loaders.set k ls' }, .unit)
+    | none => (w, .badOp)
+  | .update k tid =>
+    match w.loaders[k]? with
+    | some ls =>
+      let r := updateInfo copterPeer fuel ls.ld tid
+      ({ w with loaders := w.loaders.set k (noteRead ls r.1) },
+        match r.2 with | none => .stepBound | some (.ok b) => .bool b | some (.error e) => .err e)
+    | none => (w, .badOp)
+  | .request k tid =>
+    match w.loaders[k]? with
+    | some ls =>
+      let r := requestInfoUpdate copterPeer fuel ls.ld tid
+      ({ w with loaders := w.loaders.set k (noteRead ls r.1) },
+        match r.2 with | none => .stepBound | some (.ok g) => .geom g | some (.error e) => .err e)
+    | none => (w, .badOp)
+  | .check k =>
+    match w.loaders[k]? with
+    | some ls =>
+      let r := updateInfo copterPeer fuel ls.ld Gen.C12.targetSTM32
+      ({ w with loaders := w.loaders.set k (noteRead ls r.1) },
+        match r.2 with | none => .stepBound | some (.ok b) => .bool b | some (.error e) => .err e)
+    | none => (w, .badOp)
+  | .flash k key image ov =>
+    match w.loaders[k]? with
+    | some ls =>
+      let r := flashOn copterPeer ls.ld key image ov []
+      let ls' : LoaderSt := { ls with ld := r.1 }
+      ({ w with loaders := w.loaders.set k ls' }, .res r.2)
+    | none => (w, .badOp)
+
+def World.run (fuel : Nat) : World → List HOp → World × List HRes
+  | w, [] => (w, [])
+  | w, op :: ops =>
+    let r := w.step fuel op
+    let rr := World.run fuel r.1 ops
+    (rr.1, r.2 :: rr.2)
+
 end CfVerif.C12
